@@ -163,6 +163,8 @@ func init() {
 		ex.noteAssumption("encoding/json.Unmarshal of a json.Marshal result restores the marshalled value (lossless for the exported, tagged integer/string fields used here)")
 		return Iface{}
 	}
+	// tendermint's amino-style JSON decodes plain structs like encoding/json
+	intrinsics["github.com/tendermint/tendermint/libs/json.Unmarshal"] = intrinsics["encoding/json.Unmarshal"]
 	intrinsics["math.Ceil"] = func(ex *Exec, a []Value, _ *Frame) Value {
 		x := a[0].(Float).T
 		if !x.IsConst() {
